@@ -447,6 +447,15 @@ pub fn gen_adv(prop: &str, seed: u64, thorough: bool) -> Plan {
         let n0 = config.users[0].0.clone();
         config.users[1].0 = n0;
     }
+    // a user table none of whose keys fits the cipher (keys left over from the other key size): the server may refuse to start;
+    // if it serves, it still is a multi-user server - a peer that holds the server key alone is nobody
+    let unusable_users = prop == "C06" && proto == Proto::Shadowsocks && config.users.len() >= 2 && (seed / cells.len() as u64) % 5 == 2;
+    if unusable_users {
+        let other = if key_len(cipher) == 16 { 32 } else { 16 };
+        for u in config.users.iter_mut() {
+            u.1 = b64(&g.bytes(other));
+        }
+    }
     if proto == Proto::Shadowsocks && transport == Transport::Quic {
         // (the QUIC endpoint of a Shadowsocks server takes the place of its datagram service)
         config.client_mode = "tcp".into();
@@ -464,7 +473,7 @@ pub fn gen_adv(prop: &str, seed: u64, thorough: bool) -> Plan {
         config,
         knobs: KnobsPlan::simple(),
         flows: vec![],
-        extra: serde_json::json!({ "sub_seed": g.next(), "round": seed / cells.len() as u64, "attacks": if thorough { 400 } else { 80 } }),
+        extra: serde_json::json!({ "sub_seed": g.next(), "round": seed / cells.len() as u64, "attacks": if thorough { 400 } else { 80 }, "unusable_users": unusable_users }),
     }
 }
 
@@ -487,12 +496,42 @@ pub fn execute_c06(plan: &Plan) -> Outcome {
         }
         let server = start_server_json(plan.config.server_json());
         tokio::task::yield_now().await;
+        let unusable_users = plan.extra["unusable_users"].as_bool().unwrap_or(false);
         if !settle(|| if carrier == Transport::Quic { udp_bound(SERVER_PORT) } else { tcp_listening(SERVER_PORT) }).await {
+            if unusable_users {
+                // refusing to start with a user table that cannot be used is the documented behaviour (C16): nothing is relayed
+                *n_attacks.entry("unusable-user-table-refused-at-startup".into()).or_insert(0) += 1;
+                return (None, findings, n_attacks);
+            }
             return (Some(format!("server did not come up (finished={})", server.is_finished())), findings, n_attacks);
         }
         let addr = Addr::V4(T_IP, T_PORT);
         let dials = || world::with(|w| w.connects.iter().filter(|c| c.node == rt::NODE_SERVER).count());
         let udp_to_target = || world::with(|w| w.udp_sends.iter().filter(|s| s.node == rt::NODE_SERVER && s.to == target_sock()).count());
+        if unusable_users {
+            // the server serves although none of its users can ever authenticate: the holder of the server key alone (no identity
+            // header, or a made-up one) must still not be relayed, as a stream or as a datagram
+            let mut w = c.clone();
+            w.user_keys.clear();
+            w.client_keys = vec![c.psk.clone()];
+            for i in 0..6u64 {
+                let before = (dials(), udp_to_target());
+                if i % 2 == 0 {
+                    let wire = RefClient::start(&w, &mut g, unix_now(), &addr, b"server-key-alone", &ClientOpts::default()).1;
+                    shoot_over(carrier, &wire, 1, 50).await;
+                } else if carrier != Transport::Quic {
+                    let sock = UdpSocket::bind(SocketAddr::new(IpAddr::V4(Ipv4Addr::LOCALHOST), 0)).await.unwrap();
+                    let _ = sock.send_to(&forge_datagram(&w, &mut g, &addr, b"server-key-alone-dgram", None), server_addr()).await;
+                }
+                tokio::time::sleep(Duration::from_millis(50)).await;
+                *n_attacks.entry("server-key-alone-against-unusable-user-table".into()).or_insert(0) += 1;
+                if (dials(), udp_to_target()) != before {
+                    findings.push(("relayed-without-credential/server-key-alone-against-unusable-user-table".into(), format!("the user table holds {} users none of whose keys fits the cipher; a peer that proves the server key alone was relayed ({})", plan.config.users.len(), if i % 2 == 0 { "stream" } else { "datagram" })));
+                    break;
+                }
+            }
+            return (None, findings, n_attacks);
+        }
         for i in 0..attacks {
             let kind = i % 6;
             let (name, wire): (String, Vec<u8>) = match kind {
